@@ -1,4 +1,5 @@
 import CifModel.Lemmas.HeapHistBld
+import CifModel.Lemmas.HeapHistFuel
 /-
   Lemmas for operation histories on the heap, part 5: whole histories (`runH` / `runP`) and the final release.
 -/
@@ -6,13 +7,18 @@ namespace CifModel.Model.Hist
 open CifModel CifModel.Model.Heap
 open CifModel.Model.Value (Step Entry resolve update child setChild defaultOf mapFind mapReplace)
 
-/-- one operation, any kind -/
-theorem step_sim {s : HState} {p : PState} {F : Root → List Nat} (inv : RepS [] s p F) (fuel : Nat) (hf : Fits fuel p)
-    (op : HOp) (hm : Fits fuel (midP p op)) : Sim [] (stepH? fuel s op) (stepP? p op) := by
+theorem RepS.fits {T : List Nat} {s : HState} {p : PState} {F : Root → List Nat} (inv : RepS T s p F) (fuel : Nat)
+    (hfuel : fuelOf s.h ≤ fuel) : Fits fuel p :=
+  inv.fitsAt fuel (by simp only [fuelOf] at hfuel; omega)
+
+/-- one operation, any kind, any fuel that is at least the fuel computed from the heap -/
+theorem step_sim {s : HState} {p : PState} {F : Root → List Nat} (inv : RepS [] s p F) (fuel : Nat)
+    (hfuel : fuelOf s.h ≤ fuel) (op : HOp) : Sim [] (stepH? fuel s op) (stepP? p op) := by
+  have hf := inv.fits fuel hfuel
   cases op with
   | nop => exact Sim.none
   | new i kind => exact step_new inv fuel i kind
-  | bld i v => exact step_bld inv fuel i v hm
+  | bld i v => exact step_bld inv fuel i v
   | free i => exact step_free inv fuel hf i
   | cln src dst => exact step_cln inv fuel hf src dst
   | init r kind => exact step_init inv fuel hf r kind
@@ -22,15 +28,15 @@ theorem step_sim {s : HState} {p : PState} {F : Root → List Nat} (inv : RepS [
   | lins r i src => exact step_lins inv fuel hf r i src
   | lrem r i dst => exact step_lrem inv fuel hf r i dst
   | mget r nk => exact Sim.none
-  | mset r key nk src => exact step_mset inv fuel hf r key nk src hm
+  | mset r key nk src => exact step_mset inv fuel hf r key nk src (by simp only [fuelOf] at hfuel; exact hfuel)
   | mrem r nk dst => exact step_mrem inv fuel hf r nk dst
   | pnew i names => exact step_pnew inv fuel i names
   | pfree i => exact step_pfree inv fuel hf i
 
-theorem stepC_RepS {s : HState} {p : PState} {F : Root → List Nat} (inv : RepS [] s p F) (fuel : Nat) (hf : Fits fuel p)
-    (op : HOp) (hm : Fits fuel (midP p op)) : ∃ F', RepS [] (stepC fuel s op) (stepP p op) F' := by
+theorem stepC_RepS {s : HState} {p : PState} {F : Root → List Nat} (inv : RepS [] s p F) (op : HOp) :
+    ∃ F', RepS [] (stepC s op) (stepP p op) F' := by
   unfold stepC stepH stepP
-  rcases step_sim inv fuel hf op hm with ⟨s', p', F', h1, h2, inv'⟩ | ⟨h1, h2⟩
+  rcases step_sim inv (fuelOf s.h) (Nat.le_refl _) op with ⟨s', p', F', h1, h2, inv'⟩ | ⟨h1, h2⟩
   · rw [h1, h2]
     simp only [Option.getD_some]
     rw [compact_eq s'.h inv'.wf]
@@ -40,32 +46,16 @@ theorem stepC_RepS {s : HState} {p : PState} {F : Root → List Nat} (inv : RepS
     rw [compact_eq s.h inv.wf]
     exact ⟨F, inv⟩
 
-/-! ### a fuel that suffices for a history -/
-
-def needOpt : Option V → Nat
-  | some v => need v
-  | none => 0
-
-/-- the largest `need` of a value held in a slot -/
-def needMax (p : PState) : Nat := (allRoots.map (fun r => needOpt (p.get r))).foldl max 0
-
-/-- the fuel a history needs: every state it goes through (and the intermediate state of a `set_item` on an existing key)
-    must fit -/
-def bound : List HOp → PState → Nat
-  | [], p => needMax p
-  | op :: ops, p => max (needMax p) (max (needMax (midP p op)) (bound ops (stepP p op)))
-
-theorem le_foldl_max (l : List Nat) (init x : Nat) (h : x ∈ l ∨ x ≤ init) : x ≤ l.foldl max init := by
-  induction l generalizing init with
-  | nil => rcases h with h | h; cases h; exact h
-  | cons y l ih =>
-    simp only [List.foldl_cons]
-    apply ih
-    rcases h with h | h
-    · rcases List.mem_cons.mp h with rfl | h
-      · exact Or.inr (Nat.le_max_right _ _)
-      · exact Or.inl h
-    · exact Or.inr (Nat.le_trans h (Nat.le_max_left _ _))
+theorem run_RepS : ∀ (ops : List HOp) (s : HState) (p : PState) (F : Root → List Nat),
+    RepS [] s p F → ∃ F', RepS [] (runH ops s) (runP ops p) F' := by
+  intro ops
+  induction ops with
+  | nil => intro s p F inv; exact ⟨F, inv⟩
+  | cons op ops ih =>
+    intro s p F inv
+    obtain ⟨F', inv'⟩ := stepC_RepS inv op
+    simp only [runH, runP]
+    exact ih _ _ F' inv'
 
 theorem ok_mem_allRoots (r : Root) (h : r.ok = true) : r ∈ allRoots := by
   cases r with
@@ -77,80 +67,6 @@ theorem ok_mem_allRoots (r : Root) (h : r.ok = true) : r ∈ allRoots := by
     have hk : k < NP := of_decide_eq_true h
     simp only [allRoots, List.mem_append, List.mem_map, List.mem_range]
     exact Or.inr ⟨k, hk, rfl⟩
-
-/-- only the slots that exist are ever occupied -/
-def OkP (p : PState) : Prop := ∀ r, r.ok = false → p.get r = none
-
-theorem RepS.okP {T : List Nat} {s : HState} {p : PState} {F : Root → List Nat} (inv : RepS T s p F) : OkP p :=
-  fun r hr => (inv.emptySlot r (inv.ok r hr)).1
-
-theorem fits_of_needMax {p : PState} (hok : OkP p) {fuel : Nat} (h : needMax p ≤ fuel) : Fits fuel p := by
-  intro r v hp
-  have hr : r.ok = true := by
-    cases hc : r.ok with
-    | true => rfl
-    | false => rw [hok r hc] at hp; cases hp
-  have : needOpt (p.get r) ≤ needMax p :=
-    le_foldl_max _ 0 _ (Or.inl (List.mem_map.mpr ⟨r, ok_mem_allRoots r hr, rfl⟩))
-  rw [hp] at this
-  exact Nat.le_trans this h
-
-theorem midP_ok {p : PState} (hok : OkP p) (op : HOp) : OkP (midP p op) := by
-  cases op with
-  | mset r key nk src =>
-    cases nk with
-    | none => exact hok
-    | some nk =>
-      simp only [midP]
-      cases hg : getP p r with
-      | none => exact hok
-      | some c =>
-        cases c with
-        | tbl es =>
-          simp only []
-          cases hm : mapFind es nk with
-          | none => exact hok
-          | some e =>
-            simp only []
-            cases hp : putP p r (.tbl (mapReplace es nk key e.2.2)) with
-            | none => exact hok
-            | some q => exact fun r' hr' => getP_setP_ok hp r' hr' (hok r' hr')
-        | _ => exact hok
-  | bld i v =>
-    simp only [midP]
-    by_cases hi : (Root.val i).ok = true
-    · simp only [hi, if_true]
-      intro r hr
-      simp only [setP_get]
-      have hne : r ≠ .val i := fun e => by rw [e, hi] at hr; cases hr
-      simp [hne, hok r hr]
-    · simp only [hi]; exact hok
-  | _ => exact hok
-
-theorem run_RepS (fuel : Nat) : ∀ (ops : List HOp) (s : HState) (p : PState) (F : Root → List Nat),
-    RepS [] s p F → bound ops p ≤ fuel → ∃ F', RepS [] (runH fuel ops s) (runP ops p) F' := by
-  intro ops
-  induction ops with
-  | nil => intro s p F inv _; exact ⟨F, inv⟩
-  | cons op ops ih =>
-    intro s p F inv hb
-    simp only [bound] at hb
-    have hf : Fits fuel p := fits_of_needMax inv.okP (by omega)
-    have hm : Fits fuel (midP p op) := fits_of_needMax (midP_ok inv.okP op) (by omega)
-    obtain ⟨F', inv'⟩ := stepC_RepS inv fuel hf op hm
-    simp only [runH, runP]
-    exact ih _ _ F' inv' (by omega)
-
-/-- the fuel bound of a history also covers its last state -/
-theorem bound_last : ∀ (ops : List HOp) (p : PState), needMax (runP ops p) ≤ bound ops p := by
-  intro ops
-  induction ops with
-  | nil => intro p; exact Nat.le_refl _
-  | cons op ops ih =>
-    intro p
-    simp only [runP, bound]
-    have := ih (stepP p op)
-    omega
 
 theorem RepS.init : RepS [] HState.empty PState.empty (fun _ => []) :=
   ⟨fun _ _ => rfl, fun _ _ => rfl, fun _ => rfl, (fun _ _ h => by cases h), (fun _ _ _ _ h => by cases h),
@@ -236,9 +152,10 @@ theorem releaseRoots_spec (fuel : Nat) (s : HState) : ∀ (rs : List Root), rs.N
 theorem allRoots_nodup : allRoots.Nodup := by decide
 
 /-- releasing every slot of a represented state frees every block (each once: a `free` of a dead block fails) -/
-theorem releaseAll_spec {s : HState} {p : PState} {F : Root → List Nat} (inv : RepS [] s p F) (fuel : Nat) (hf : Fits fuel p) :
-    ∃ h', releaseAll fuel s = some h' ∧ ∀ a, h'.cell a = none := by
-  obtain ⟨h', sl', p', F', hop, inv', h1, h2⟩ := releaseRoots_spec fuel s allRoots allRoots_nodup s.h s.slot p F inv hf (fun _ _ => rfl)
+theorem releaseAll_spec {s : HState} {p : PState} {F : Root → List Nat} (inv : RepS [] s p F) :
+    ∃ h', releaseAll s = some h' ∧ ∀ a, h'.cell a = none := by
+  obtain ⟨h', sl', p', F', hop, inv', h1, h2⟩ := releaseRoots_spec (fuelOf s.h) s allRoots allRoots_nodup s.h s.slot p F inv
+    (inv.fits _ (Nat.le_refl _)) (fun _ _ => rfl)
   refine ⟨h', hop, ?_⟩
   intro a
   cases hc : h'.cell a with
